@@ -44,7 +44,7 @@ CallDevs == {"Dev_ArrowThis", "Dev_ArrowArguments", "Dev_NonConstructorNew", "De
              "Dev_FnNameInference", "Dev_BoundName", "Dev_NativeFn", "Dev_NewReturnFn",
              "Dev_FnProtoAssign", "Dev_FnProtoNoObjectProto",
              "Dev_NativeThis", "Dev_ToStringFnClass", "Dev_FnNotObject", "Dev_PrimitiveNoProto", "Dev_ArrayAccessors",
-             "Dev_EnumSkipsAccessors", "Dev_KeyNoToPrimitive"}
+             "Dev_EnumSkipsAccessors", "Dev_KeyNoToPrimitive", "Dev_InstanceofBound"}
 
 ThisOf(form) == CASE form = "method" -> "@recv" [] form = "plain" -> "u" [] form \in {"call", "apply", "bind"} -> "@x1"
                   [] form = "new" -> "@?" [] form = "arrow" -> "@recv"
@@ -492,11 +492,125 @@ RELaws(c) ==
      /\ (me["l1"] = P("true") <=> c.ret = "new") /\ (me["l0"] = P("true") <=> c.via \in {"new", "newbound"})
      /\ me["n1"] = P("n2") /\ me["x1"] = P("n3") /\ me["y1"] = P("n4")                       \* the arguments written, nothing in front
 
-Cells == TableCells \cup TCells \cup KCells \cup RCells
-CellRef(c) == IF c.form = "re" THEN RefRE(c.kind, c.via, c.ret) ELSE IF c.form = "tv" THEN RefTV(c.via, c.kind, c.ret) ELSE IF c.form = "chain" THEN RefChain(c.kind) ELSE IF c.form = "newret" THEN RefRet(c.ret, c.kind) ELSE RefCell(c.form, c.kind)
-CellAsIs(c, dv) == IF c.form = "re" THEN RefRE(c.kind, c.via, c.ret) ELSE IF c.form = "tv" THEN AsIsTV(c.via, c.kind, c.ret, dv) ELSE IF c.form = "chain" THEN AsIsChain(c.kind, dv) ELSE IF c.form = "newret" THEN AsIsRet(c.ret, c.kind, dv)
+\* ==============================================================================================
+\* Part F: derivation chains.  In Parts B-E a bound function is bind applied ONCE to a declaration.  bind takes any function
+\* and gives a function, so the function kind "bound" is a whole family: a base function (of every kind that has a body) with
+\* a CHAIN of bind levels on top, each level with its own this and its own number of bound arguments (none, one, two: the
+\* sum may exceed the parameter count).  What the property says about a function of that family: this is the FIRST level's
+\* (new ignores it and links the instance to the base's prototype), the arguments are the bound arguments of every level in
+\* order followed by the call's own, length is the base's minus everything bound and never below 0, name gains one
+\* "bound " per level, and binding again leaves the function that was bound as it was.
+\* A cell: base kind x chain (one digit per level = number of arguments bound there, depth 1..3) x the form that calls the
+\* outermost function h.  Level j binds this = tj and the arguments 10j+1, 10j+2; the call passes (1, 2).
+\* Driver (checks/c08_driver.py bc_driver): every base has three parameters and returns [this, all its arguments, a, b, c];
+\*   g0 = f; gj = g(j-1).bind(tj, ...); h = the last one, prev = the one before;  afterwards prev(1, 2) is called and
+\*   prev.length / prev.name are read (depth 1: prev is the base function itself);
+\*   forms  plain h(1,2) | call h.call(x1,1,2) | apply h.apply(x1,[1,2]) | method recv.h = h, recv.h(1,2) | new new h(1,2)
+\*          | map ra4.map(h)[0]   (ra4 = [4]: arguments element, index, array)
+\*   the arrow base is created inside host.mk(7, 8).
+BKinds == {"decl", "expr", "named", "method", "arrow"}
+BForms == {"plain", "call", "apply", "method", "new", "map"}
+BSeqs == UNION {[1..d -> 0..2] : d \in 1..3}
+BStr(sq) == FoldLeft(LAMBDA acc, e : acc \o ToString(e), "", sq)
+BChainsAll == {BStr(sq) : sq \in BSeqs}
+BOf(via) == CHOOSE sq \in BSeqs : BStr(sq) = via
+\* quick: every chain of depth 1 and 2, and depth-3 chains in which every level takes every count
+BQuickChains == {BStr(sq) : sq \in {x \in BSeqs : Len(x) <= 2}} \cup {"111", "012", "120", "201", "222"}
+BChains == IF Tier = "quick" THEN BQuickChains ELSE BChainsAll
+BCellsAll == {[form |-> "bc", kind |-> k, ret |-> f, via |-> ch] : k \in BKinds, f \in BForms, ch \in BChainsAll}
+\* quick: the declaration with every form, every other base kind with a plain call and with new
+BCells == {c \in BCellsAll : c.via \in BChains /\ (Tier # "quick" \/ c.kind = "decl" \/ c.ret \in {"plain", "new"})}
+BGridLaw == /\ BChains \subseteq BChainsAll
+            /\ \A k \in BKinds, ch \in BChains : \E c \in BCells : c.kind = k /\ c.via = ch
+            /\ \A f \in BForms, ch \in BChains : \E c \in BCells : c.ret = f /\ c.via = ch
+            /\ \A k \in BKinds : \E c \in BCells : c.kind = k /\ c.ret = "new"
+            /\ \A d \in 1..3 : \A p \in 1..d : \A n \in 0..2 : \E ch \in BChains : Len(BOf(ch)) = d /\ BOf(ch)[p] = n
+            /\ \A n1, n2 \in 0..2 : \E ch \in BChains : Len(BOf(ch)) >= 2 /\ BOf(ch)[1] = n1 /\ BOf(ch)[2] = n2
+ASSUME BGridLaw
+BSum(sq) == FoldLeft(LAMBDA acc, e : acc + e, 0, sq)
+BBound(sq) == FoldLeft(LAMBDA acc, j : acc \o [i \in 1..sq[j] |-> NTok(10 * j + i)], <<>>, [j \in 1..Len(sq) |-> j])
+BCallArgs(form) == IF form = "map" THEN <<"n4", "n0", "@ra4">> ELSE <<"n1", "n2">>
+BListTok(sq) == "[" \o (IF Len(sq) = 0 THEN "" ELSE FoldLeft(LAMBDA acc, e : acc \o "," \o e, sq[1], SubSeq(sq, 2, Len(sq)))) \o "]"
+BAt(sq, j) == IF j <= Len(sq) THEN sq[j] ELSE "u"
+BBase(kind) == CASE kind = "decl" -> "fd" [] kind = "expr" -> "fe" [] kind = "named" -> "nm" [] kind = "method" -> "f" [] kind = "arrow" -> ""
+BPrefix(d) == CASE d = 0 -> "" [] d = 1 -> "bound " [] d = 2 -> "bound bound " [] d = 3 -> "bound bound bound "
+BLen(sq) == LET r == 3 - BSum(sq) IN NTok(IF r < 0 THEN 0 ELSE r)
+BNonCtor == {"arrow", "method"}
+BNewAspects == {"this", "linked", "inst", "insth", "alen", "args", "pa", "pb", "pc"}
+\* the model, parameterised by the deviations in force (dv = {} is ECMA-262): aspect -> value
+BCModel(kind, sq, form, dv) ==
+  LET d == Len(sq)
+      isnew == form = "new"
+      arrow == kind = "arrow"
+      base == IF kind \in {"expr", "method"} /\ "Dev_FnNameInference" \in dv THEN "" ELSE BBase(kind)
+      ownargs == ~arrow \/ "Dev_ArrowArguments" \in dv            \* an arrow's arguments are those of host.mk(7, 8)
+      ownthis == ~arrow \/ "Dev_ArrowThis" \in dv                 \* an arrow's this is that of host.mk
+      ctor == kind \notin BNonCtor \/ "Dev_NonConstructorNew" \in dv
+      all == BBound(sq) \o BCallArgs(form)
+      seen == IF ownargs THEN all ELSE <<"n7", "n8">>
+      psq == SubSeq(sq, 1, d - 1)
+      pseen == IF ownargs THEN BBound(psq) \o <<"n1", "n2">> ELSE <<"n7", "n8">>
+      th == IF ~ownthis THEN "@host" ELSE IF isnew THEN "@?" ELSE "@t1"      \* the first level's this; new ignores it
+      fresh == BoolV(isnew /\ ownthis)
+      common == ("length" :> BLen(sq)) @@ ("name" :> "'" \o BPrefix(d) \o base) @@ ("pout" :> "ok") @@ ("pargs" :> BListTok(pseen))
+                @@ ("plen" :> BLen(psq)) @@ ("pname" :> "'" \o BPrefix(d - 1) \o base)
+      \* as-is (Dev_InstanceofBound): instanceof with a bound function on the right looks for a prototype object of the bound
+      \* function itself, finds none and answers false (ES: it asks the function that was bound)
+      insth == IF "Dev_InstanceofBound" \in dv THEN "false" ELSE fresh
+      ran == ("out" :> "ok") @@ ("this" :> th) @@ ("linked" :> fresh) @@ ("inst" :> fresh) @@ ("insth" :> insth)
+             @@ ("alen" :> NTok(Len(seen))) @@ ("args" :> BListTok(seen)) @@ ("pa" :> BAt(all, 1)) @@ ("pb" :> BAt(all, 2)) @@ ("pc" :> BAt(all, 3))
+      thrown == ("out" :> "!TypeError") @@ [a \in BNewAspects |-> "u"]
+  IN common @@ (IF isnew /\ ~ctor THEN thrown ELSE ran)
+RefBC(kind, via, form) == LET m == BCModel(kind, BOf(via), form, {}) IN [a \in DOMAIN m |-> P(m[a])]
+AsIsBC(kind, via, form, dv) ==
+  LET r == BCModel(kind, BOf(via), form, {})
+      x == BCModel(kind, BOf(via), form, dv)
+      lab(a) == IF a \in {"name", "pname"} THEN "Dev_FnNameInference"
+                ELSE IF a = "insth" /\ "Dev_InstanceofBound" \in dv THEN "Dev_InstanceofBound"
+                ELSE IF form = "new" /\ kind \in BNonCtor /\ a \notin {"pargs"} THEN "Dev_NonConstructorNew"
+                ELSE IF a \in {"this", "linked", "inst", "insth"} THEN "Dev_ArrowThis" ELSE "Dev_ArrowArguments"
+  IN [a \in DOMAIN x |-> IF x[a] = r[a] THEN P(x[a]) ELSE D(x[a], lab(a))]
+BCAspects(form) == IF form = "new" THEN <<"out", "this", "linked", "inst", "insth", "alen", "args", "pa", "pb", "pc", "length", "name", "pout", "pargs", "plen", "pname">>
+                   ELSE <<"out", "this", "alen", "args", "pa", "pb", "pc", "length", "name", "pout", "pargs", "plen", "pname">>
+\* laws of the chain table (model-checked over all its cells)
+BCLaws(c) ==
+  LET sq == BOf(c.via)
+      d == Len(sq)
+      me == BCModel(c.kind, sq, c.ret, {})
+      pre == BCModel(c.kind, SubSeq(sq, 1, d - 1), "plain", {})       \* the chain without its last level, called plainly
+      num(t) == CHOOSE n \in 0..64 : NTok(n) = t
+  IN /\ \A a \in SeqSetC(BCAspects(c.ret)) : a \in DOMAIN me
+     \* one more level: length shrinks by what that level binds and stops at 0, name gains one prefix
+     /\ (d >= 2 => /\ num(me["length"]) = (IF num(pre["length"]) > sq[d] THEN num(pre["length"]) - sq[d] ELSE 0)
+                   /\ BPrefix(d) = "bound " \o BPrefix(d - 1)
+                   /\ me["name"] = "'" \o BPrefix(d) \o BBase(c.kind) /\ pre["name"] = "'" \o BPrefix(d - 1) \o BBase(c.kind))
+     /\ (d = 1 => me["name"] = "'bound " \o BBase(c.kind) /\ me["plen"] = "n3" /\ me["pname"] = "'" \o BBase(c.kind))
+     \* binding again leaves the function that was bound as it was
+     /\ (d >= 2 => me["pargs"] = pre["args"] /\ me["plen"] = pre["length"] /\ me["pname"] = pre["name"])
+     \* this is the first level's whatever follows and whatever the form, except new; an arrow keeps its lexical this
+     /\ (me["out"] = "ok" /\ c.ret # "new" => me["this"] = (IF c.kind = "arrow" THEN "@host" ELSE "@t1"))
+     /\ (me["out"] = "ok" => me["this"] = BCModel(c.kind, <<sq[1]>>, c.ret, {})["this"])
+     /\ \A f \in BForms \ {"new"} : BCModel(c.kind, sq, f, {})["this"] = BCModel(c.kind, sq, "plain", {})["this"]
+     /\ BCModel(c.kind, sq, "call", {}) = BCModel(c.kind, sq, "apply", {})
+     \* new: a fresh linked instance exactly for constructors, a TypeError otherwise
+     /\ (c.ret = "new" => (me["out"] = "!TypeError") <=> (c.kind \in BNonCtor))
+     /\ (c.ret = "new" /\ me["out"] = "ok" => me["this"] = "@?" /\ me["linked"] = "true" /\ me["inst"] = "true" /\ me["insth"] = "true")
+     \* the arguments: everything bound, level by level, then the call's own; nothing is lost, nothing doubled
+     /\ (me["out"] = "ok" /\ c.kind # "arrow" => /\ num(me["alen"]) = BSum(sq) + Len(BCallArgs(c.ret))
+                                                /\ BBound(sq) = BBound(SubSeq(sq, 1, d - 1)) \o [i \in 1..sq[d] |-> NTok(10 * d + i)]
+                                                /\ me["args"] = BListTok(BBound(sq) \o BCallArgs(c.ret)))
+     /\ (me["out"] = "ok" /\ c.kind = "arrow" => me["args"] = "[n7,n8]")
+     \* length / name do not depend on the form
+     /\ \A f \in BForms : BCModel(c.kind, sq, f, {})["length"] = me["length"] /\ BCModel(c.kind, sq, f, {})["name"] = me["name"]
+     \* a deviation changes only what it names
+     /\ (c.kind \in {"decl", "named"} => AsIsBC(c.kind, c.via, c.ret, CallDevs \ {"Dev_InstanceofBound"}) = RefBC(c.kind, c.via, c.ret))
+     /\ \A a \in DOMAIN me \ {"insth"} : BCModel(c.kind, sq, c.ret, {"Dev_InstanceofBound"})[a] = me[a]
+
+Cells == TableCells \cup TCells \cup KCells \cup RCells \cup BCells
+CellRef(c) == IF c.form = "bc" THEN RefBC(c.kind, c.via, c.ret) ELSE IF c.form = "re" THEN RefRE(c.kind, c.via, c.ret) ELSE IF c.form = "tv" THEN RefTV(c.via, c.kind, c.ret) ELSE IF c.form = "chain" THEN RefChain(c.kind) ELSE IF c.form = "newret" THEN RefRet(c.ret, c.kind) ELSE RefCell(c.form, c.kind)
+CellAsIs(c, dv) == IF c.form = "bc" THEN AsIsBC(c.kind, c.via, c.ret, dv) ELSE IF c.form = "re" THEN RefRE(c.kind, c.via, c.ret) ELSE IF c.form = "tv" THEN AsIsTV(c.via, c.kind, c.ret, dv) ELSE IF c.form = "chain" THEN AsIsChain(c.kind, dv) ELSE IF c.form = "newret" THEN AsIsRet(c.ret, c.kind, dv)
                    ELSE AsIsCell(c.form, c.kind, dv)
-CellAspects(c) == IF c.form = "re" THEN REAspects ELSE IF c.form = "tv" THEN TVAspects(c.via, c.kind) ELSE IF c.form = "chain" THEN ChainAspects ELSE IF c.form = "newret" THEN RetAspects ELSE ProductAspects(c.kind)
+CellAspects(c) == IF c.form = "bc" THEN BCAspects(c.ret) ELSE IF c.form = "re" THEN REAspects ELSE IF c.form = "tv" THEN TVAspects(c.via, c.kind) ELSE IF c.form = "chain" THEN ChainAspects ELSE IF c.form = "newret" THEN RetAspects ELSE ProductAspects(c.kind)
 
 \* laws of the table itself (model-checked over all cells)
 CallLaws(c) ==
@@ -504,6 +618,7 @@ CallLaws(c) ==
   /\ \A a \in SeqSetC(CellAspects(c)) : a \in DOMAIN CellRef(c) /\ a \in DOMAIN CellAsIs(c, CallDevs)
   /\ (c.form = "tv" => TVLaws(c))
   /\ (c.form = "re" => RELaws(c))
+  /\ (c.form = "bc" => BCLaws(c))
   /\ (c.form \in Forms =>
         LET r == RefCell(c.form, c.kind) IN
         /\ RefCell("call", c.kind) = RefCell("apply", c.kind)                             \* call and apply agree
@@ -533,7 +648,7 @@ CellVerdict(rec) ==
       ref == CellRef(c)
       asis == CellAsIs(c, dv)
       actout == ActOf(rec, "out")
-      always == {"out", "length", "name"}
+      always == {"out", "length", "name", "pout", "pargs", "plen", "pname"}     \* read whether or not the call threw
       judged == SelectSeq(CellAspects(c), LAMBDA a : a \in always \/ actout = "ok")
       \* the engine may have some of the listed defects repaired: an aspect is explained if SOME subset of the
       \* deviations relevant to this cell predicts it (all of them is tried first)
